@@ -333,6 +333,41 @@ def r10c(P, R):
     sections(R, "R10-c", ("comments", _part0), ("quoted-keys", _part1))
 
 
+RTP = PR + "resolver_type_printer::"
+TS_T = PR + "ts_types::TSType"
+
+
+def resolver_fn(P, role):
+    """The functions of the resolver type printer by role — the anchored free function if it exists, else the unique function or
+    method of the module with that role:
+      "dispatch": matches over TypeDefinition and returns Option<TSType> (a kind may have no resolver);
+      "output":   matches over TypeDefinition and returns TSType (the resolver-output alias of a type);
+      "object" / "interface" / "union" / "arguments": takes the definition struct of that kind and returns (an Option of) TSType."""
+    from facts import AnchorMissing
+    named = {"dispatch": "get_resolver_type", "output": "get_ts_type_for_resolver_output", "object": "get_object_resolver_type",
+             "interface": "get_interface_resolver_type", "union": "get_union_resolver_type", "arguments": "arguments_definition_to_ts"}
+    f = P.fn(RTP + "visitor::" + named[role], required=False)
+    if f is not None:
+        return f
+    param = {"object": A + "type_system::ObjectTypeDefinition", "interface": A + "type_system::InterfaceTypeDefinition",
+             "union": A + "type_system::UnionTypeDefinition", "arguments": A + "type_system::ArgumentsDefinition"}
+    cands = []
+    for g in P.fns.values():
+        if not g.path.startswith((RTP, "<" + RTP)) or g.derived or "::tests" in g.path or g.kind not in ("Fn", "AssocFn") or "::{closure" in g.path:
+            continue
+        out = peel_ty(g.sig_output or "")
+        returns_ts = out == TS_T or out == "core::option::Option<%s>" % TS_T
+        if role in param:
+            if returns_ts and any(peel_ty(t).strip().split("<")[0] == param[role] for t in g.sig_inputs):
+                cands.append(g)
+        elif matches_on(g, "type_system::TypeDefinition") and any(peel_ty(t).strip().split("<")[0] == A + "type_system::TypeDefinition" for t in g.sig_inputs):
+            if (role == "dispatch" and out == "core::option::Option<%s>" % TS_T) or (role == "output" and out == TS_T):
+                cands.append(g)
+    if len(cands) != 1:
+        raise AnchorMissing("the resolver printer function with role `%s` (candidates: %s)" % (role, [c.path for c in cands]))
+    return cands[0]
+
+
 def _resolver_signature(P, R, o):
     """`__Resolver<Parent, Args, Context, Result>`: the four type arguments by *role* (what each is computed from), not by the name
     of the local that holds it"""
@@ -373,7 +408,7 @@ def _resolver_signature(P, R, o):
 def r10d(P, R):
     """resolver declarations"""
     def _part0():
-        g = P.fn(PR + "resolver_type_printer::visitor::get_resolver_type")
+        g = resolver_fn(P, "dispatch")
         want = {"Scalar": None, "Enum": None, "InputObject": None, "Object": "get_object_resolver_type", "Interface": "get_interface_resolver_type", "Union": "get_union_resolver_type"}
         # the resolver builders by role: the printer function whose parameter is the definition struct of that kind
         kind_adt = {"Object": A + "type_system::ObjectTypeDefinition", "Interface": A + "type_system::InterfaceTypeDefinition", "Union": A + "type_system::UnionTypeDefinition"}
@@ -384,7 +419,7 @@ def r10d(P, R):
                 if arm is None:
                     R.undecided("R10-d", "resolver-kind:" + k, "no arm for %s in get_resolver_type" % k, loc=g.loc())
                     continue
-                callees = [P.fns.get(call_name(x)) for x in subnodes(arm["body"]) if x.get("k") == "Call" and (call_name(x) or "").startswith(PR)]
+                callees = [P.fns.get(call_name(x)) for x in subnodes(arm["body"]) if x.get("k") in ("Call", "MethodCall") and (call_name(x) or "").startswith(PR)]
                 callees = [c for c in callees if c is not None]
                 if w is None:
                     R.check("R10-d", "resolver-kind:" + k, not callees, "%s -> no resolver" % k,
@@ -403,7 +438,7 @@ def r10d(P, R):
 
     def _part1():
         # object types: one required resolver per field
-        o0 = P.fn(PR + "resolver_type_printer::visitor::get_object_resolver_type")
+        o0 = resolver_fn(P, "object")
         o = inl(P, o0)
         all_elements(P, R, "R10-d", o, A + "type_system::ObjectTypeDefinition", "fields", "object fields (each needs a resolver)")
         opv = Prov(o)
@@ -422,17 +457,17 @@ def r10d(P, R):
 
     def _part2():
         # arguments in ResolverInput, results in ResolverOutput
-        a = inl(P, P.fn(PR + "resolver_type_printer::visitor::arguments_definition_to_ts"))
+        a = inl(P, resolver_fn(P, "arguments"))
         namespace_targets(P, R, "R10-d", a, "ResolverInput", 1)
         all_elements(P, R, "R10-d", a, A + "type_system::ArgumentsDefinition", "input_values", "arguments")
         # Args = the declared argument types: no argument's type depends on its default value or directives
-        member_type_pure(P, R, "R10-d", P.fn(PR + "resolver_type_printer::visitor::arguments_definition_to_ts"), A + "type_system::InputValueDefinition", "arguments")
-        ro = inl(P, P.fn(PR + "resolver_type_printer::visitor::get_ts_type_for_resolver_output"))
+        member_type_pure(P, R, "R10-d", resolver_fn(P, "arguments"), A + "type_system::InputValueDefinition", "arguments")
+        ro = inl(P, resolver_fn(P, "output"))
         namespace_targets(P, R, "R10-d", ro, "ResolverOutput", 1)
 
     def _part3():
         # abstract types: __resolveType over exactly the possible types
-        i0 = P.fn(PR + "resolver_type_printer::visitor::get_interface_resolver_type")
+        i0 = resolver_fn(P, "interface")
         i = inlined(P, i0, pred=stable_pred(lambda x: not x.path.endswith("utils::interface_implementers")))
         pvi = Prov(i)
         from_impl = calls_anywhere(i, "utils::interface_implementers")
@@ -450,7 +485,7 @@ def r10d(P, R):
 
     def _part4():
         # unions: over all members
-        u = inl(P, P.fn(PR + "resolver_type_printer::visitor::get_union_resolver_type"))
+        u = inl(P, resolver_fn(P, "union"))
         all_elements(P, R, "R10-d", u, A + "type_system::UnionTypeDefinition", "members", "union members")
 
     def _part5():
@@ -477,7 +512,11 @@ def r10d(P, R):
         # resolver root: one entry per type definition of the (plugin-transformed) document
         pd0 = P.fn(PR + "resolver_type_printer::printer::ResolverTypePrinter::print_document")
         pd = inlined(P, pd0, pred=stable_pred(lambda x: "resolver_type_printer::printer" in x.path))
-        root_calls = [c for c in pd.walk() if c.get("k") == "Call" and (call_name(c) or "").endswith("get_resolver_type")]
+        try:
+            disp = resolver_fn(P, "dispatch").path
+        except Exception:
+            disp = None
+        root_calls = [c for c in pd.walk() if c.get("k") in ("Call", "MethodCall") and disp and call_name(c) == disp]
         # plugins compose: each plugin transforms the result of the previous one
         tcalls = [(i, c) for i, (c, _) in enumerate(pd.nodes()) if c.get("k") == "MethodCall" and c["method"] == "transform_document_for_resolvers"]
         pvc = Prov(pd)
